@@ -731,7 +731,10 @@ fn comment_desc_for_tag(c: &LuaComment, tag: &LuaDocTag) -> String {
                     continue;
                 }
                 if found_tag && let Some(desc) = LuaDocDescription::cast(n) {
-                    return desc.syntax().text().to_string().trim().to_string();
+                    // only the inline part: the following lines of the description are separate
+                    // lines of the comment and are printed as such
+                    let full = desc.syntax().text().to_string();
+                    return full.lines().next().unwrap_or("").trim().to_string();
                 }
             }
             rowan::NodeOrToken::Token(t)
